@@ -100,4 +100,50 @@ def explainAccept (cfg : Cfg) (log : List LogE) (now : Nat) (w : String) (b : Na
   if acceptOk false cfg log now w b then "ok"
   else "accept moved the awaited check block backwards (or re-armed a confirmed one) inside the lockout window"
 
+/-! ### acceptance racing the event loop: linearisability
+
+An *episode*: a state `s0`, thread programs `progs` (thread 0: the events of one provider
+answer that concern the work id, in answer order; the others: `Accept` calls issued while that
+answer is processed) and, once all of them have returned, probes on the final state.  What
+the harness can see of an episode for one work id is a `RaceObs`.  The clause "event polling
+racing with acceptance" of C06 is read as: **the observation is one that some sequential
+order of the episode's operations produces** (thread program order kept).  Nothing else is
+assumed: if the operations do not commute, every order's outcome is allowed. -/
+
+structure RaceObs where
+  answers  : List (List Bool)   -- per thread: the answers of its `Accept`s in program order
+  transmit : List Bool          -- `ShouldTransmit(w, b)` for the probe blocks
+  process  : List Bool          -- `ShouldProcess(w, uid, b)` for the probe blocks
+  reaccept : List Bool          -- then `Accept(w, b)` for the probe blocks, in order
+deriving DecidableEq, Repr
+
+structure Probes where
+  transmit : List Nat
+  process  : List Nat
+  reaccept : List Nat
+deriving Repr
+
+/-- `Accept(w, b)` for each probe block in order: the answers -/
+def reaccepts (cfg : Cfg) : St → String → List Nat → List Bool
+  | _, _, [] => []
+  | s, w, b :: bs => (accept cfg s w b).2 :: reaccepts cfg (accept cfg s w b).1 w bs
+
+/-- what is observed of final state `r.1` and tagged answers `r.2` -/
+def observe (cfg : Cfg) (utype : String → UpkeepType) (nthreads : Nat) (w uid : String) (pr : Probes)
+    (r : St × List (Nat × Bool)) : RaceObs :=
+  { answers := (List.range nthreads).map fun i => (r.2.filter fun p => decide (p.1 = i)).map (·.2),
+    transmit := pr.transmit.map (shouldTransmit r.1 w),
+    process := pr.process.map (shouldProcess utype r.1 w uid),
+    reaccept := reaccepts cfg r.1 w pr.reaccept }
+
+/-- the observations of all sequential orders of the episode -/
+def linOutcomes (cfg : Cfg) (utype : String → UpkeepType) (s0 : St) (progs : List (List Job)) (w uid : String)
+    (pr : Probes) : List RaceObs :=
+  (merges (totalJobs progs) progs).map fun ord => observe cfg utype progs.length w uid pr (runTagged cfg s0 ord)
+
+/-- C06, race clause: the observation is the one of some sequential order -/
+def linOk (cfg : Cfg) (utype : String → UpkeepType) (s0 : St) (progs : List (List Job)) (w uid : String)
+    (pr : Probes) (o : RaceObs) : Bool :=
+  (linOutcomes cfg utype s0 progs w uid pr).contains o
+
 end AutoVerif.C06
